@@ -178,10 +178,26 @@ func CallMethod(obj interface{}, methodName string, args ...interface{}) (interf
 			methodName, methodType.NumIn(), len(args))
 	}
 
-	// Prepare arguments
+	// Prepare arguments. reflect.Call panics on a null (zero Value) argument
+	// and on one that is not assignable to the parameter type, so both are
+	// turned into errors here instead of taking the request handler down.
 	methodArgs := make([]reflect.Value, len(args))
 	for i, arg := range args {
-		methodArgs[i] = reflect.ValueOf(arg)
+		paramType := methodParamType(methodType, i)
+		if arg == nil {
+			switch paramType.Kind() {
+			case reflect.Interface, reflect.Ptr, reflect.Map, reflect.Slice, reflect.Func, reflect.Chan:
+				methodArgs[i] = reflect.Zero(paramType)
+				continue
+			}
+			return nil, fmt.Errorf("method %s: argument %d cannot be null", methodName, i+1)
+		}
+		argValue := reflect.ValueOf(arg)
+		if !argValue.Type().AssignableTo(paramType) {
+			return nil, fmt.Errorf("method %s: argument %d has type %s, expected %s",
+				methodName, i+1, argValue.Type(), paramType)
+		}
+		methodArgs[i] = argValue
 	}
 
 	// Call the method
@@ -207,6 +223,16 @@ func CallMethod(obj interface{}, methodName string, args ...interface{}) (interf
 
 	// Return the first result
 	return results[0].Interface(), nil
+}
+
+// methodParamType returns the type the i-th call argument must be assignable
+// to, looking through the slice of a variadic final parameter.
+func methodParamType(methodType reflect.Type, i int) reflect.Type {
+	last := methodType.NumIn() - 1
+	if methodType.IsVariadic() && i >= last {
+		return methodType.In(last).Elem()
+	}
+	return methodType.In(i)
 }
 
 // canonicalMethodName maps a called name to its whitelisted Go spelling.
